@@ -157,3 +157,43 @@ func (f *Face) CompileGood(k int) int {
 	}
 	return tab.Metrics[0]
 }
+
+// a scratch object kept in a pool and handed to the caller: the next user of the pool overwrites it
+type loader struct{ segs []int }
+
+var loaders = sync.Pool{New: func() interface{} { return new(loader) }}
+
+func LoadPooledBad(n int) []int {
+	l := loaders.Get().(*loader)
+	defer loaders.Put(l)
+	l.segs = l.segs[:0]
+	for i := 0; i < n; i++ {
+		l.segs = append(l.segs, i)
+	}
+	return l.segs
+}
+
+// the same scratch object used correctly: nothing derived from it survives the Put
+func LoadPooledGood(n int) []int {
+	l := loaders.Get().(*loader)
+	defer loaders.Put(l)
+	l.segs = l.segs[:0]
+	for i := 0; i < n; i++ {
+		l.segs = append(l.segs, i)
+	}
+	out := make([]int, len(l.segs))
+	copy(out, l.segs)
+	return out
+}
+
+// ownership handed to the caller, which puts it back itself: not decided by R-POOL
+func getLoader() *loader { return loaders.Get().(*loader) }
+
+var shared sync.Map
+
+// a value kept in a shared map is shared: writing into it is a mutation of global state
+func BumpSharedBad(k int) {
+	if v, ok := shared.Load(k); ok {
+		v.(*loader).segs[0]++
+	}
+}
